@@ -103,15 +103,15 @@ def parse_nvra(nvra):
 
 
 #: Validation regex for release short name: [a-z] followed by [a-z0-9] separated with dashes.
-RELEASE_SHORT_RE = re.compile(r"^[a-z][a-z0-9]*(-[a-z0-9]+)*$")
+RELEASE_SHORT_RE = re.compile(r"^[a-z][a-z0-9]*(-[a-z0-9]+)*\Z")
 
 
 #: Validation regex for release version: any string or [0-9] separated with dots.
-RELEASE_VERSION_RE = re.compile(r"^([^0-9].*|([0-9]+(\.[0-9]+)*))$")
+RELEASE_VERSION_RE = re.compile(r"^([^0-9].*|([0-9]+(\.[0-9]+)*))\Z")
 
 
 #: Validation regex for release type: [a-z] followed by [a-z0-9] separated with dashes.
-RELEASE_TYPE_RE = re.compile(r"^[a-z][a-z0-9]*(-[a-z0-9]+)*$")
+RELEASE_TYPE_RE = re.compile(r"^[a-z][a-z0-9]*(-[a-z0-9]+)*\Z")
 
 
 #: Known release types. New values need to be added here if they contain a
@@ -351,7 +351,7 @@ class Header(MetadataBase):
 
     def _validate_version(self):
         self._assert_type("version", six.string_types)
-        self._assert_matches_re("version", [r"^\d+\.\d+$"])
+        self._assert_matches_re("version", [r"^[0-9]+\.[0-9]+\Z"])
 
     @property
     def version_tuple(self):
